@@ -1004,6 +1004,53 @@ AExtSubRet ==
      ELSE Return(ErrRet, cur, sec, insp, AddAltErr(Ety, NoAlt, f.cp.cur, alt.err))
 
 ---------------------------------------------------------------------------
+(* <<"prog", ins, subs>>: custom(|inp| ..) whose closure is a straight-line program over InputRef's PUBLIC methods,   *)
+(* one instruction = one method call = one step of the machine:                                                       *)
+(*   <<"n">>     inp.next()      None => return Err(user error over span_since(start))                                *)
+(*   <<"s">>     inp.skip()      (nothing happens at the end of the input)                                            *)
+(*   <<"p", t>>  inp.peek()      something other than Some(t) => return Err                                           *)
+(*   <<"sv">>    c = inp.save()  (one checkpoint register: frame field cp2)                                           *)
+(*   <<"rw">>    inp.rewind(c)   (truncates the secondary errors, restores the inspector, moves the cursor)           *)
+(*   <<"sub", k> inp.parse(&subs[k])   <<"chk", k>> inp.check(&subs[k]):  Err(e) => return Err(e), where e is the     *)
+(*               WHOLE pending error (take_alt().unwrap().err)                                                        *)
+(*   <<"f">>     return Err(user error over span_since(start))                                                        *)
+(* Falling off the end returns Ok(span_since(start)).  Custom::go files a returned error with add_alt_err at the      *)
+(* position where the closure started; the cursor stays wherever the closure left it.                                 *)
+ProgEntering == /\ ~st.done /\ stack # <<>> /\ ~ret.set /\ Op(Top.g) = "prog"
+ProgStay(f2, ncur, nsec, ninsp) ==
+  /\ stack' = [stack EXCEPT ![Len(stack)] = f2]
+  /\ cur' = ncur /\ sec' = nsec /\ insp' = ninsp
+  /\ ret' = NoRet /\ Tick
+  /\ UNCHANGED <<cid, alt, memo, kf, obs, result>>
+ProgFail(f, er) == Return(ErrRet, cur, sec, insp, AddAltErr(Ety, alt, f.cp.cur, er))
+ProgUserErr(f) == LET sp == SpanOf(f.cp.cur, cur) IN UserErr(Ety, sp[1], sp[2], "cu")
+
+AProgStep ==
+  /\ ProgEntering
+  /\ LET f == Top
+         i == f.pc + 1                     \* pc = number of instructions done
+         ins == f.g[2]
+         nx == [f EXCEPT !.pc = i]
+         t == TokAt(cur)
+     IN IF i > Len(ins)
+        THEN LET sp == SpanOf(f.cp.cur, cur) IN Keep(OkRet(MV(f.mode, VSp(sp[1], sp[2]))))
+        ELSE LET o == ins[i] IN
+             CASE o[1] = "n" -> IF t = "" THEN ProgFail(f, ProgUserErr(f)) ELSE ProgStay(nx, Nxt(cur), sec, insp + 1)
+               [] o[1] = "s" -> IF t = "" THEN ProgStay(nx, cur, sec, insp) ELSE ProgStay(nx, Nxt(cur), sec, insp + 1)
+               [] o[1] = "p" -> IF t = o[2] THEN ProgStay(nx, cur, sec, insp) ELSE ProgFail(f, ProgUserErr(f))
+               [] o[1] = "sv" -> ProgStay([nx EXCEPT !.cp2 = Cp(cur, Len(sec), insp)], cur, sec, insp)
+               [] o[1] = "rw" -> ProgStay(nx, f.cp2.cur, RwSec(f.cp2), f.cp2.insp)
+               [] o[1] = "f" -> ProgFail(f, ProgUserErr(f))
+               [] o[1] \in {"sub", "chk"} -> Call(nx, o[2], f.g[3][o[2]], IF o[1] = "sub" THEN "E" ELSE "C", cur, sec, insp, alt)
+
+AProgSubRet ==
+  /\ ~st.done /\ stack # <<>> /\ ret.set /\ Op(Top.g) = "prog"
+  /\ LET f == Top IN
+     IF ret.ok THEN ProgStay(f, cur, sec, insp)
+     ELSE IF ~alt.some THEN Panic
+     ELSE Return(ErrRet, cur, sec, insp, AddAltErr(Ety, NoAlt, f.cp.cur, alt.err))
+
+---------------------------------------------------------------------------
 (* a.nested_in(b) (NestedIn::go, InputRef::with_input), g = <<"nested", a, b>>:                  *)
 (*   pc 1  b in Emit mode yields the inner input (a flat range VIn(lo, hi))                        *)
 (*   pc 2  the outer alt is taken away; a.then_ignore(end()) runs on the inner input with FRESH    *)
@@ -1243,7 +1290,7 @@ CoreNext ==
   \/ ALabelStart \/ ALabelRet \/ AMapErrRet
   \/ AMemoStart \/ AMemoRet \/ ARecStart \/ ARefStart \/ ALetStart \/ AVarStart \/ APassRet
   \/ ANestedStart \/ ANestedBRet \/ ANestedARet
-  \/ ATextStart \/ ATPaddedStart \/ ATPaddedRet \/ AExtSubStart \/ AExtSubRet
+  \/ ATextStart \/ ATPaddedStart \/ ATPaddedRet \/ AExtSubStart \/ AExtSubRet \/ AProgStep \/ AProgSubRet
   \/ AWithCtxStart \/ AThenCtxStart \/ AThenCtxARet \/ AThenCtxBRet \/ AWithStateStart \/ AWithStateRet
   \/ APrattStart \/ APrattPrefixScan \/ APrattPrefixOpRet \/ APrattPrefixRet \/ APrattAtomRet
   \/ APrattPostfixScan \/ APrattPostfixOpRet \/ APrattInfixScan \/ APrattInfixOpRet \/ APrattInfixRet
